@@ -27,16 +27,16 @@ import (
 )
 
 type Cell struct {
-	Signal    string `json:"signal"` // INT TERM none
+	Signal    string  `json:"signal"` // INT TERM none
 	SignalMs  []int64 `json:"signal_ms"`
-	Second    bool   `json:"second_signal"`
-	Instances int    `json:"instances"`
-	Items     int    `json:"items"`
-	RPS       string `json:"rps"` // once5 const
-	ShotMs    int64  `json:"shot_ms"`
-	Queue     int    `json:"queue"`
-	Bound     int    `json:"bound"`
-	Startup   string `json:"startup,omitempty"` // "" once(instances) | const: one instance every 500ms | pause: 1 instance, 1s pause, 1 instance
+	Second    bool    `json:"second_signal"`
+	Instances int     `json:"instances"`
+	Items     int     `json:"items"`
+	RPS       string  `json:"rps"` // once5 const
+	ShotMs    int64   `json:"shot_ms"`
+	Queue     int     `json:"queue"`
+	Bound     int     `json:"bound"`
+	Startup   string  `json:"startup,omitempty"` // "" once(instances) | const: one instance every 500ms | pause: 1 instance, 1s pause, 1 instance
 }
 
 func (c Cell) Name() string {
@@ -75,6 +75,8 @@ func (r *run) scenario(x *vs.X) func(end, msg string) error {
 	switch c.RPS {
 	case "once5":
 		rps = func() (core.Schedule, error) { return schedule.NewOnce(5), nil }
+	case "const6":
+		rps = func() (core.Schedule, error) { return schedule.NewConst(2, 6*time.Second), nil }
 	default:
 		rps = func() (core.Schedule, error) { return schedule.NewConst(2, 10*time.Second), nil }
 	}
@@ -122,8 +124,8 @@ func startup(c Cell) core.Schedule {
 // fatalCore lets Fatal entries through (so that the fatal hook runs) and drops everything else.
 type fatalCore struct{}
 
-func (fatalCore) Enabled(l zapcore.Level) bool                 { return l >= zapcore.FatalLevel }
-func (c fatalCore) With([]zapcore.Field) zapcore.Core          { return c }
+func (fatalCore) Enabled(l zapcore.Level) bool        { return l >= zapcore.FatalLevel }
+func (c fatalCore) With([]zapcore.Field) zapcore.Core { return c }
 func (c fatalCore) Check(e zapcore.Entry, ce *zapcore.CheckedEntry) *zapcore.CheckedEntry {
 	if c.Enabled(e.Level) {
 		return ce.AddCore(e, c)
@@ -147,6 +149,7 @@ func (r *run) check(end, msg string) error {
 	}
 	seen := map[uint64]bool{}
 	lines := 0
+	discardLines := 0
 	for _, l := range strings.Split(strings.TrimSuffix(out, "\n"), "\n") {
 		if l == "" {
 			continue
@@ -161,10 +164,24 @@ func (r *run) check(end, msg string) error {
 		if i < 0 || err != nil {
 			return fmt.Errorf("MALFORMED: %q", l)
 		}
+		if f[1][:i] == "discarded" || f[10] == "777" {
+			// a discarded request: tag 'discarded', net code 777, no id
+			if f[1][:i] != "discarded" || f[10] != "777" {
+				return fmt.Errorf("DISCARD-SAMPLE: discarded request written as %q (tag 'discarded' and net code 777 expected together)", l)
+			}
+			discardLines++
+			continue
+		}
 		if seen[id] {
 			return fmt.Errorf("DUPLICATE: sample %d written twice", id)
 		}
 		seen[id] = true
+	}
+	if r.cell.Signal == "none" && r.cell.RPS == "const6" && r.cell.Items < 0 {
+		// the run ends by its profile: every one of the 12 tokens was either fired or reported as discarded
+		if w.Shots+discardLines != 12 {
+			return fmt.Errorf("DISCARD-ACCOUNTING: %d requests fired and %d discarded samples written for a profile of 12 tokens", w.Shots, discardLines)
+		}
 	}
 	// samples reported after the stop request race with the aggregator's own shutdown and may be
 	// dropped (the core.Aggregator contract allows it); the obligation covers reports that had returned
@@ -209,6 +226,12 @@ func cells(thorough bool) []Cell {
 		}
 	}
 	out = append(out, Cell{Signal: "none", Instances: 2, Items: 4, RPS: "once5", Queue: 64, Bound: 1})
+	// a slow target with discard_overflow: discarded requests go through the real sample pool and the real phout
+	for _, inst := range []int{1, 2} {
+		for _, shot := range []int64{2500, 5000} {
+			out = append(out, Cell{Signal: "none", Instances: inst, Items: -1, RPS: "const6", ShotMs: shot, Queue: 64, Bound: 0})
+		}
+	}
 	out = append(out, Cell{Signal: "none", Instances: 1, Items: -1, RPS: "once5", Queue: 1, Bound: 1})
 	return out
 }
